@@ -192,6 +192,8 @@ func (m *Machine) call(caller *frame, pos token.Pos, fn Value, args []Value) Val
 
 func (m *Machine) call2(caller *frame, pos token.Pos, fn Value, args []Value) Value {
 	switch fn := fn.(type) {
+	case builtinConst:
+		return fn.v
 	case *ssa.Function:
 		if fn == nil {
 			m.rtPanic(caller, "nil-func-call")
@@ -428,6 +430,20 @@ func (m *Machine) prepareCall(fr *frame, call *ssa.CallCommon) (Value, []Value) 
 		if recv.T == nil {
 			m.rtPanic(fr, "nil-interface-method-call")
 		}
+		if recv.T == reflectTypeCarrier {
+			// the few reflect.Type methods that only need the static type
+			if o, ok := recv.V.(*Opaque); ok {
+				if t, ok := o.Data.(types.Type); ok {
+					switch call.Method.Name() {
+					case "Comparable":
+						return builtinConst{m.F.Bool(types.Comparable(t))}, nil
+					case "String":
+						return builtinConst{Str{S: typeStr(t)}}, nil
+					}
+				}
+			}
+			m.unsupported("method %s on reflect.Type", call.Method.Name())
+		}
 		f := m.W.Prog.LookupMethod(recv.T, call.Method.Pkg(), call.Method.Name())
 		if f == nil {
 			m.unsupported("no method %s on dynamic type %s", call.Method.Name(), typeStr(recv.T))
@@ -510,8 +526,17 @@ func (m *Machine) visit(fr *frame, instr ssa.Instruction) bool {
 	case *ssa.Panic:
 		v := m.panicValue(fr.get(in.X))
 		panic(&GoPanic{V: v, Site: "panic@" + fr.fn.String()})
-	case *ssa.Send, *ssa.Select, *ssa.MakeChan:
-		m.unsupported("channel operation in %s", fr.fn)
+	case *ssa.MakeChan:
+		n := m.concreteInt(fr, fr.get(in.Size), "make-chan-size")
+		if n < 0 {
+			m.rtPanic(fr, "makechan-size-out-of-range")
+		}
+		fr.setv(in, &Chan{cap: n, elem: in.Type().Underlying().(*types.Chan).Elem()})
+	case *ssa.Send:
+		ch, _ := fr.get(in.Chan).(*Chan)
+		m.chanSend(fr, ch, fr.get(in.X))
+	case *ssa.Select:
+		m.unsupported("select in %s", fr.fn)
 	case *ssa.Store:
 		m.store(fr, deref(in.Addr.Type()), fr.get(in.Addr), fr.get(in.Val))
 	case *ssa.If:
@@ -740,3 +765,85 @@ func (m *Machine) makeLen(fr *frame, v Value, vt types.Type, what string) int {
 	m.unsupported("%s: symbolic allocation size above 64 in %s", what, fr.fn)
 	return 0
 }
+
+// ---- channels ----
+
+func (m *Machine) chanSend(fr *frame, ch *Chan, v Value) {
+	if m.initing && ch == nil {
+		m.unsupported("send on nil channel during init")
+	}
+	if ch == nil {
+		m.block(fr, new(int)) // blocks forever: deadlock unless other threads run
+		return
+	}
+	m.yield(fr, "chan-send")
+	for {
+		if ch.closed {
+			panic(&GoPanic{V: Iface{T: m.W.runtimeErrorType(), V: Str{S: "send on closed channel"}}, Site: "send-on-closed-channel@" + fnName(fr), RT: true})
+		}
+		if len(ch.buf) < ch.cap {
+			old := ch.buf
+			ch.buf = append(append([]Value(nil), old...), copyVal(v))
+			m.onUndo(func() { ch.buf = old })
+			if m.threads != nil {
+				m.threads.wake(ch)
+			}
+			return
+		}
+		if ch.cap == 0 {
+			m.unsupported("send on an unbuffered channel in %s", fnName(fr))
+		}
+		m.block(fr, ch)
+	}
+}
+
+func (m *Machine) chanRecv(fr *frame, ch *Chan, commaOk bool, elem types.Type) Value {
+	if ch == nil {
+		m.block(fr, new(int))
+		return nil
+	}
+	m.yield(fr, "chan-recv")
+	for {
+		if len(ch.buf) > 0 {
+			old := ch.buf
+			v := old[0]
+			ch.buf = append([]Value(nil), old[1:]...)
+			m.onUndo(func() { ch.buf = old })
+			if m.threads != nil {
+				m.threads.wake(ch)
+			}
+			if commaOk {
+				return Tuple{v, m.F.True}
+			}
+			return v
+		}
+		if ch.closed {
+			z := m.zero(elem)
+			if commaOk {
+				return Tuple{z, m.F.False}
+			}
+			return z
+		}
+		if m.initing {
+			m.unsupported("blocking channel receive during init")
+		}
+		m.block(fr, ch)
+	}
+}
+
+func (m *Machine) chanClose(fr *frame, ch *Chan) {
+	if ch == nil {
+		panic(&GoPanic{V: Iface{T: m.W.runtimeErrorType(), V: Str{S: "close of nil channel"}}, Site: "close-of-nil-channel@" + fnName(fr), RT: true})
+	}
+	if ch.closed {
+		panic(&GoPanic{V: Iface{T: m.W.runtimeErrorType(), V: Str{S: "close of closed channel"}}, Site: "close-of-closed-channel@" + fnName(fr), RT: true})
+	}
+	ch.closed = true
+	m.onUndo(func() { ch.closed = false })
+	if m.threads != nil {
+		m.threads.wake(ch)
+	}
+}
+
+// builtinConst is a pseudo-callee whose call returns a fixed value.
+type builtinConst struct{ v Value }
